@@ -198,11 +198,16 @@ def run(tier, seed):
                "and its cause/context chain, the channel log.")
     ck.trusted = ["Lean 4.33.0 kernel; axioms of every theorem audited ⊆ {propext, Classical.choice, Quot.sound}",
                   "tools/gen/c12.py (+c12_index.py, c12_flow.py): the AST flow-graph extraction (name based, intra-package; rules in design/C12.md)",
-                  "props/c12.py, props/c12_scen.py, harness/secretdevice.py (canary runs, scan, tie of observed flows to the graph)"]
+                  "props/c12.py, props/c12_scen.py, harness/secretdevice.py (canary runs, scan, tie of observed flows to the graph, "
+                  "sys.setprofile tracker for the interior of the secret closure)",
+                  "tools/gen/c12_expected.json (reviewed list of taint-dropping assumptions: handle attributes, narrow exception handlers)"]
     ck.assumptions = ["PARTIAL: the theorem is about the extracted graph; that the graph over-approximates the data flow of the Python "
                       "code rests on the extraction rules (name-based call resolution, attributes merged by name, explicit data flow only: "
                       "no implicit/control flow, no flows through third-party objects or through the device) and is validated dynamically: "
                       "every token seen at a sink must be a static flow",
+                      "flows through the device are not in the graph: that an echoed secret is not logged by Channel.read rests on "
+                      "hidden_input_typed_only_at_its_prompt (model of send_inputs_interact) + the ENVIRONMENT ASSUMPTION that the device does "
+                      "not echo at the expected (password) prompt + the scenario runs (devices echo everywhere else)",
                       "third-party loggers (paramiko, asyncssh) and third-party exception objects in a cause chain are outside the statement",
                       "text of a third-party exception caught by a handler naming specific classes is library-authored (does not embed the "
                       "secret arguments of the call); handlers for Exception/BaseException are treated as receiving every argument"]
@@ -215,7 +220,7 @@ def run(tier, seed):
     except Exception as e:
         ck.proof_broken("translator gen/c12.py", repr(e))
     # 2 prove
-    ck.prove("ScrapliProps.C12", lemma_files=["ScrapliProps/C12Lemmas.lean", "ScrapliModel/Flow.lean"])
+    ck.prove("ScrapliProps.C12", lemma_files=["ScrapliProps/C12Lemmas.lean", "ScrapliProps/C12Interact.lean", "ScrapliModel/Flow.lean"])
     if tier == "thorough":
         ck.leanchecker("ScrapliProps.C12")
 
@@ -435,6 +440,41 @@ def run(tier, seed):
                 unexplained += 1
                 ck.disagree("observed flow absent from the static graph", {"role": role, "sink": kind, "site": list(site), **info},
                             "the extraction misses a real data flow (correspondence failure of gen/c12.py)")
+    # ---- correspondence 2b: the INTERIOR of the secret closure.  Every local variable / attribute that held a secret
+    #      canary during a real run must be a node of reach(sources) (any flag context, any access path)
+    if g is not None:
+        import re as _re2
+        closure = g.reach(g.sources)
+        vars_in, attrs_in = set(), set()
+        for i in closure:
+            n = g.names[i]
+            if n.startswith("a:"):
+                attrs_in.add(n[2:])
+            elif n.startswith("v:"):
+                body = n[2:].split("[", 1)[0]
+                fq, name = body.rsplit(":", 1)
+                fq = _re2.sub(r"@[TF]$", "", fq)
+                if fq.endswith(".setter"):
+                    fq = fq[: -len(".setter")]
+                vars_in.add((fq, name))
+        inside = outside = 0
+        for item, (role, key) in sorted(S.TRACKER.seen.items(), key=str):
+            ok = (item[1] in attrs_in) if item[0] == "a" else ((f"{item[1]}::{item[2]}", item[3]) in vars_in)
+            if ok:
+                inside += 1
+                ck.traces_validated += 1
+            else:
+                outside += 1
+                ck.disagree("variable holding a secret is outside the static closure", {"item": list(item), "role": role, "scenario": key},
+                            "a real run put a secret canary into this local / attribute but reach(sources) does not contain it: "
+                            "missing edge in gen/c12.py on a secret's own path")
+        ck.extra["tainted_variables_outside_list"] = [list(k) + list(v) for k, v in sorted(S.TRACKER.seen.items(), key=str)
+                                                       if not ((k[1] in attrs_in) if k[0] == "a" else ((f"{k[1]}::{k[2]}", k[3]) in vars_in))][:40]
+        ck.extra["tainted_variables_seen"] = inside + outside
+        ck.extra["tainted_variables_outside_closure"] = outside
+        ck.extra["profiled_package_frames"] = S.TRACKER.frames
+        if inside == 0:
+            ck.proof_broken("harness self-check", "the taint tracker saw no variable holding a secret: sys.setprofile not working")
     ck.extra["distinct_observed_flows"] = len(flows)
     ck.extra["observed_flows_not_in_graph"] = unexplained
 
